@@ -4,7 +4,7 @@ import archdispatch
 import archlib
 
 ID = "C07"
-PROOF_MODULES = ["PyribsProofs.C07"]
+PROOF_MODULES = ["PyribsProofs.C07", "PyribsProofs.C15", "PyribsProofs.C14b"]
 THEOREMS = [
     "Pyribs.C07.placed_addBatch",
     "Pyribs.C07.placed_addSingle",
@@ -14,6 +14,8 @@ THEOREMS = [
     "Pyribs.C07.self_retrieval",
     "Pyribs.C07.sample_sound",
     "Pyribs.C07.nonvacuous",
+    "Pyribs.C15.remap_placed",
+    "Pyribs.C14b.prox_self_retrieval",
 ]
 RULE = ("lock-step histories (add / add_single / clear / retrieve / retrieve_single / sample_elites) on every "
         "fixed-cell archive kind, dtype and extra-field layout; after every add all stored measures are retrieved "
